@@ -1588,6 +1588,87 @@ impl<'a> Gen<'a> {
     }
 }
 
+/// Deeply nested block collections (indentation steps 2–4, 14–24 levels, or as many as reach a
+/// chosen column) around a multi-line literal / folded block scalar whose content lines start at
+/// column 15…65 — the range where the vectorised block-scalar scanners count indentation in more than
+/// one lane — followed by sibling entries at every level.
+pub fn deep_stream(r: &mut Rng) -> PStream {
+    let target: Option<usize> = if r.chance(2, 3) { Some(*r.pick(&[15usize, 16, 17, 31, 32, 33, 34, 47, 48, 49, 63, 64, 65])) } else { None };
+    let mut steps: Vec<usize> = Vec::new();
+    let mut e = 0usize;
+    let ind;
+    match target {
+        Some(t) => {
+            while t - e > 4 {
+                let st = (*r.pick(&[2usize, 2, 3, 4])).min(t - e - 1);
+                steps.push(st);
+                e += st;
+            }
+            ind = t - e;
+        }
+        None => {
+            for _ in 0..r.range(14, 24) {
+                let st = *r.pick(&[2usize, 2, 3, 4]);
+                steps.push(st);
+                e += st;
+            }
+            ind = r.range(1, 4) as usize;
+        }
+    }
+    // the text: at least two non-empty lines
+    let mut s = String::new();
+    for _ in 0..20 {
+        s = gen_text(r);
+        if s.split('\n').filter(|l| !l.is_empty()).count() >= 2 && s.split('\n').all(bs_line_ok) {
+            break;
+        }
+        s = String::new();
+    }
+    if s.is_empty() {
+        s = (*r.pick(&["line one\nline two\nline three\n", "a\n  b\nc", "x: 1\ny: 2\n\n", "- a\n- b\n"])).to_string();
+    }
+    let chomp = *r.pick(&chomp_choices(&s));
+    let explicit = needs_explicit(&s) || r.chance(1, 3);
+    let can_fold = !s.starts_with('\n') && s.split('\n').all(|l| !l.starts_with(' '));
+    let st = if can_fold && r.chance(1, 2) {
+        let cs: Vec<char> = s.chars().collect();
+        let mut folds = Vec::new();
+        for i in 1..cs.len().saturating_sub(1) {
+            if cs[i] == ' ' && cs[i - 1] != ' ' && cs[i - 1] != '\n' && cs[i + 1] != ' ' && cs[i + 1] != '\n' && r.chance(1, 3) {
+                folds.push(i);
+            }
+        }
+        SStyle::Folded { chomp, ind, explicit, folds }
+    } else {
+        SStyle::Literal { chomp, ind, explicit }
+    };
+    let mut node = PNode::Str(s, st);
+    let mut first = true;
+    let nlev = steps.len();
+    for lv in (0..=nlev).rev() {
+        // level `lv` holds `node`; its own step (distance from its parent's entries) is steps[lv-1]
+        let step = if lv == 0 { 2 } else { steps[lv - 1] };
+        let is_seq = r.chance(1, 3);
+        let sib = first || r.chance(1, 2);
+        first = false;
+        if is_seq {
+            let mut items = vec![(Meta::default(), node)];
+            if sib {
+                items.push((Meta::default(), PNode::Int(lv as i64, 0)));
+            }
+            node = PNode::Seq { flow: false, step, compact: false, items };
+        } else {
+            let mut entries = vec![(Meta::default(), format!("k{lv}"), KStyle::Plain, node)];
+            if sib {
+                entries.push((Meta::default(), "after".to_string(), KStyle::Plain, PNode::Int(1, 0)));
+            }
+            node = PNode::Map { flow: false, step, compact: false, entries };
+        }
+    }
+    let br = *r.pick(&[Break::Lf, Break::Lf, Break::Crlf, Break::Cr]);
+    PStream { docs: vec![PDoc { fill: vec![], marker: r.chance(1, 4), end_marker: false, root: node, root_meta: Meta::default() }], br }
+}
+
 /// Does the node contain an alias (or a nested anchor) named `a`?
 pub fn mentions(n: &PNode, a: &str) -> bool {
     match n {
